@@ -180,3 +180,190 @@ def run_head_tail(ctx, prop: str, events, dets, head=True):
         # runScaled: the distances are sin(small angle)/sin(.) — same doubles in, sin/arcsin/arccos to an ulp, amplified by
         # 1/angle (>= 1e-3 after the 1-degree clamp), squared ratio
         srctie.compare(ctx, prop, name, ci, co, rtol=1e-10 if name == "runScaled" else 1e-13)
+
+
+# --------------------------------------------------------------------------------------------------------------------------
+# the body of `run` between the translated head and tail: per-element translations of `ozone_losses`, the ozone increment of
+# `slant_depth`, `aerosol_model`, the pieces of `photon_sum`, `cher_ang_sig_i`, the body of `run`, and one iteration of zsteps.cpp
+
+def call_with_locals(fns, call):
+    """runs `call()` and returns (its result, {function name: the locals of the LAST frame of that function when it returned});
+    `fns` are bound methods of the real kernel.  Observation only (sys.setprofile): nothing is patched, arrays are copied."""
+    import sys
+    codes = {f.__func__.__code__: f.__func__.__name__ for f in fns}
+    box: dict = {}
+
+    def prof(frame, event, arg):
+        if event == "return" and frame.f_code in codes:
+            box[codes[frame.f_code]] = {k_: (v.copy() if isinstance(v, np.ndarray) else v) for k_, v in frame.f_locals.items()}
+    old = sys.getprofile()
+    sys.setprofile(prof)
+    try:
+        out = call()
+    finally:
+        sys.setprofile(old)
+    return out, box
+
+
+def _have(ctx, prop, loc, names) -> bool:
+    miss = [n for n in names if n not in loc]
+    if miss:
+        ctx.count(f"src_locals_missing_{prop}")   # a renamed local: this comparison is skipped (the theorems are not affected)
+        ctx.extra.setdefault("source_tie_locals_missing", []).append(miss[:4])
+    return not miss
+
+
+def body(ctx, prop: str, events, max_seg=10, max_ring=6):
+    """`events`: (beta, alt, E, cloud top or None).  The REAL `run` of a binary64 kernel is executed once per event under an
+    observer that copies the locals of `run` and `photon_sum` at their return; every newly translated definition is then run at
+    Float on the real inputs of a thinned set of elements and compared with the real locals."""
+    zshim.install()
+    k = cc.make_kernel(525.0, True)
+    nan, L = float("nan"), srctie.ListArg
+    try:
+        for (b, a, e, cloud) in events:
+            # ---- slant_depth pieces: zsteps.cpp per iteration, ozone_losses, the ozone increment
+            bb = clamp(k, b)
+            tv = k.theta_view(bb)
+            s = np.sin(tv, dtype=k.dtype)
+            zs_all, dz = k.zsteps(a, s)
+            n = len(zs_all)
+            z0 = np.empty(n + 1)
+            z0[0] = float(a)
+            for i in range(n):
+                z0[i + 1] = z0[i] + float(dz[i])        # `z += delz` in binary64, as the C++ loop does
+            ix = thin(n, 200)
+            m = len(ix)
+            cst = [col(s, m), col(k.RadE, m), col(k.zMaxZ, m), col(k.zmax, m), col(k.dL, m), col(k.pi, m)]
+            # same libm (glibc acos / cos / sqrt) on both sides: bit-identical expected
+            srctie.compare(ctx, prop, "zstepsIter", [z0[ix]] + cst, [np.ones(m, bool), zs_all[ix], dz[ix], z0[ix + 1]],
+                           rtol=1e-15, kinds=["Bool", None, None, None])
+            srctie.compare(ctx, prop, "zstepsIter", [z0[n:n + 1]] + [c_[:1] for c_ in cst], [np.zeros(1, bool), None, None, None],
+                           rtol=1e-15, kinds=["Bool", None, None, None])
+            zin = np.insert(zs_all, 0, a)
+            tot = k.ozone_losses(zin)
+            jx = thin(len(zin), 200)
+            srctie.compare(ctx, prop, "ozoneLosses", [zin[jx], L(k.OzZeta), L(k.OzDsum), L(k.OzDepth), col(nan, len(jx))], [tot[jx]], rtol=1e-15)
+            # exact nodes of the table (searchsorted ties, and the wrap-around of index -1 at z = OzZeta[0])
+            nodes = np.asarray(k.OzZeta[:-1], dtype=np.float64)
+            srctie.compare(ctx, prop, "ozoneLosses", [nodes, L(k.OzZeta), L(k.OzDsum), L(k.OzDepth), col(nan, len(nodes))],
+                           [k.ozone_losses(nodes)], rtol=1e-15)
+            _, _, _, _, ZonZ, _ = k.slant_depth(a, s)
+            m2 = min(n, 1500)
+            vals = np.array([h2f(t[0]) for t in srctie.run_translated(prop, "zonZVal", [col(k.dL, m2), dz[n - m2:], tot[:-1][n - m2:], tot[1:][n - m2:]])])
+            run_, ref = np.cumsum(vals[::-1])[::-1], np.asarray(ZonZ[n - m2:], dtype=np.float64)
+            same = run_ == ref
+            bad = np.nonzero(~np.isclose(run_, ref, rtol=1e-12, atol=1e-300))[0]
+            if len(bad):
+                i = int(bad[0])
+                ctx.disagree(f"{prop}.src.zonZVal", {"beta": b, "alt": a, "step": n - m2 + i, "translated_increment": float(vals[i]),
+                                                      "suffix_sum": float(run_[i]), "code_ZonZ": float(ref[i])})
+            ev_ = ctx.extra.setdefault("source_tie", {}).setdefault("zonZVal", {"cases": 0, "bit_identical": 0, "worst_ulps": 0.0})
+            ev_["cases"] += m2
+            ev_["bit_identical"] += int(same.sum())
+            ev_["worst_ulps"] = max(ev_["worst_ulps"], max((srctie.ulps(float(x), float(y)) for x, y in zip(run_[~same], ref[~same])), default=0.0))
+
+            # ---- one observed call of the real `run`
+            spy_raw = {}
+            real_spy = k.sphoton_yeild
+
+            def spy_copy(*aa, **kw):
+                out_ = real_spy(*aa, **kw)
+                spy_raw["v"] = np.array(out_, copy=True)      # before `SPYield[cloud_mask, ...] = 0` modifies it in place
+                return out_
+            k.sphoton_yeild = spy_copy
+            try:
+                cf = (lambda lat, long: cloud) if cloud is not None else None
+                with np.errstate(all="ignore"):
+                    out, loc = call_with_locals([k.run, k.photon_sum, k.cher_ang_sig_i], lambda: k.run(b, a, e, 0.0, 0.0, cf))
+            finally:
+                del k.sphoton_yeild
+            R, P, C = loc.get("run", {}), loc.get("photon_sum"), loc.get("cher_ang_sig_i")
+            if P is None or "v" not in spy_raw or not _have(ctx, prop, R, ["zs", "AirN", "s", "RN", "ThetPrpA", "ThetView", "delgram", "ZonZ", "e2hill",
+                                                                               "Eshow", "cloud_mask", "E0", "eCthres", "thetaC", "Tfrac", "DistStep",
+                                                                               "SPYield", "taphotstep", "taphotsum", "cloud_top_height"]):
+                ctx.count(f"src_body_early_exit_{prop}")
+                continue
+            zs = R["zs"]
+            nz, nw = R["SPYield"].shape
+            kx = thin(nz, max_seg)
+            if cloud is not None and R["cloud_mask"].any() and not R["cloud_mask"].all():
+                edge = int(np.argmin(R["cloud_mask"]))          # first segment above the cloud top and the one below it
+                kx = np.unique(np.concatenate([kx, [max(edge - 1, 0), edge]]))
+            ctx.count(f"src_body_segments_below_cloud_{prop}", int(np.asarray(R["cloud_mask"])[kx].sum()))
+            rep = lambda v: np.repeat(np.asarray(v, dtype=np.float64)[kx], nw)   # noqa: E731
+            til = lambda v: np.tile(np.asarray(v, dtype=np.float64), len(kx))    # noqa: E731
+            # aerosol_model: exp(-x / cos) with the same doubles in; exp to an ulp
+            aT = k.aerosol_model(zs, R["ThetPrpA"])
+            srctie.compare(ctx, prop, "aerosolModel", [rep(zs), rep(R["ThetPrpA"]), til(k.aBetaF), col(k.pi, len(kx) * nw), L(k.aOD55), L(k.dfaOD55)],
+                           [aT[kx].ravel()], rtol=1e-13)
+            # the body of `run`, one (segment, wavelength) element; sums over wavelengths / segments by numpy, as in the source
+            sum0 = np.sum(R["SPYield"], axis=-1, dtype=k.dtype)
+            M = len(kx) * nw
+            ct = float(R["cloud_top_height"])
+            srctie.compare(ctx, prop, "runBody",
+                           [col(k.pi, M), col(k.RadE, M), col(0.0, M), spy_raw["v"][kx].ravel(), col(0.0, M), rep(sum0), col(R["taphotsum"], M),
+                            rep(zs), col(ct, M), rep(R["AirN"]), rep(R["s"]), rep(R["ThetPrpA"]), col(R["ThetView"], M), rep(R["RN"]),
+                            rep(R["delgram"]), rep(R["ZonZ"]), rep(R["e2hill"]), col(R["Eshow"], M)],
+                           [R["SPYield"][kx].ravel(), rep(R["taphotstep"]), rep(R["cloud_mask"]).astype(bool), rep(R["E0"]), rep(R["eCthres"]),
+                            rep(R["thetaC"]), rep(R["Tfrac"]), rep(R["DistStep"]), R["SPYield"][kx].ravel(), rep(R["taphotstep"]),
+                            col(R["taphotsum"], M)],
+                           rtol=1e-11, atol=1e-300, kinds=[None, None, "Bool"] + [None] * 8)
+            if "AveCangI" in R:
+                sum2 = np.sum(R["taphotstep"] * R["thetaC"], axis=-1, dtype=k.dtype)
+                srctie.compare(ctx, prop, "runAve", [col(sum2, len(kx)), R["taphotstep"][kx], R["thetaC"][kx], col(R["taphotsum"], len(kx))],
+                               [(R["taphotstep"] * R["thetaC"])[kx], col(R["AveCangI"], len(kx))], rtol=1e-15)
+            if C is not None and _have(ctx, prop, C, ["taphotstep", "taphotsum", "thetaC", "AveCangI", "CangsigI"]):
+                srctie.compare_split(ctx, prop, "cherAngSigI", [C["taphotstep"], float(C["taphotsum"]), C["thetaC"], float(C["AveCangI"])],
+                                     [lambda t: np.count_nonzero(t, axis=-1), lambda t: np.sum(t, axis=-1, dtype=k.dtype)], [C["CangsigI"]],
+                                     real_terms=[C["taphotstep"] * C["thetaC"], None], rtol=1e-14)
+            # ---- photon_sum, from the locals of its real frame
+            if not _have(ctx, prop, P, ["SPYield", "DistStep", "thetaC", "sigval", "CradLim", "jlim", "jjstep", "jmask", "athetaj", "sthetaj", "ehill",
+                                        "ehillave", "tlen", "deltrack", "vhill", "wave", "poweha", "uhill", "svtrm", "e2hill", "eCthres", "Tfrac",
+                                        "E0", "s", "photsum"]):
+                continue
+            hb = float(k.hist_bin_size)
+            srctie.compare(ctx, prop, "photonSumLimits", [P["SPYield"][kx].ravel(), rep(P["DistStep"]), rep(P["thetaC"]), col(hb, M)],
+                           [P["sigval"][kx].ravel(), rep(P["CradLim"]), rep(P["jlim"])], rtol=1e-13)
+            J = P["jjstep"].shape[1]            # max_jlim
+            if J >= 2:
+                rj = thin(J - 1, max_ring)      # ring index j' of athetaj / svtrm (radius j' + 1)
+                zz, jj = np.meshgrid(kx, rj, indexing="ij")
+                zz, jj = zz.ravel(), jj.ravel()
+                dist = np.asarray(P["DistStep"], dtype=np.float64)[zz]
+                jr = np.asarray(P["jjstep"], dtype=np.float64)
+                # atan2 / sin: libm vs numpy, an ulp or two; 4 sin^2(x/2) is well conditioned
+                srctie.compare(ctx, prop, "photonSumAngles", [dist, jr[zz, jj], jr[zz, jj + 1]], [P["athetaj"][zz, jj], P["sthetaj"][zz, jj]], rtol=1e-13, atol=1e-300)
+                srctie.compare(ctx, prop, "photonSumRing", [jr[zz, jj + 1], np.asarray(P["jlim"], dtype=np.float64)[zz]], [P["jmask"][zz, jj + 1]], kinds=["Bool"])
+            ne = len(P["ehill"]) - 1
+            eh = np.asarray(P["ehill"], dtype=np.float64)
+            zz, ee = np.meshgrid(kx, np.arange(ne), indexing="ij")
+            zz, ee = zz.ravel(), ee.ravel()
+            g = lambda nm: np.asarray(P[nm], dtype=np.float64)[zz]   # noqa: E731
+            # tlen is compared at node e (`eh`); ehillave / deltrack on the bin between nodes e and e + 1; pow: a few ulps
+            srctie.compare(ctx, prop, "photonSumBins",
+                           [g("eCthres"), g("Tfrac"), g("E0"), g("s"), g("e2hill"), eh[ee], eh[ee], eh[ee + 1], P["tlen"][zz, ee], P["tlen"][zz, ee + 1]],
+                           [P["ehillave"][zz, ee], P["tlen"][zz, ee], P["deltrack"][zz, ee]], rtol=1e-12, atol=1e-300)
+            srctie.compare(ctx, prop, "photonSumWave", [g("e2hill"), P["ehillave"][zz, ee]], [P["vhill"][zz, ee], P["wave"][zz, ee], P["poweha"][zz, ee]], rtol=1e-14)
+            if J >= 2:
+                z3, j3, e3 = np.meshgrid(kx, rj, np.arange(ne), indexing="ij")
+                z3, j3, e3 = z3.ravel(), j3.ravel(), e3.ravel()
+                N = len(z3)
+                pw, wv, dt = P["poweha"][z3, e3], P["wave"][z3, e3], P["deltrack"][z3, e3]
+                zero = col(0.0, N)
+                keep = P["jmask"][z3, j3 + 1].astype(bool)
+                # round 1: the translated `ubin_1` (= sthetaj * poweha / wave) at rings j' and j' + 1 fills the shifted views
+                ub = []
+                for ring in (j3, j3 + 1):
+                    o = srctie.run_translated(prop, "photonSumTerm", [col(hb, N), zero, zero, P["sthetaj"][z3, ring], pw, wv, dt, zero, zero, zero, keep])
+                    ub.append(np.array([h2f(t[2]) for t in o]))
+                w0 = 0
+                total = float(np.einsum("zje,zw->", P["svtrm"], P["sigval"], dtype=k.dtype))
+                # sqrt / exp of uhill: exp(-x / 0.38) with x up to ~1e2 amplifies an ulp of sqrt; differences of ubin cancel: atol
+                srctie.compare(ctx, prop, "photonSumTerm",
+                               [col(hb, N), col(total, N), P["athetaj"][z3, j3], P["sthetaj"][z3, j3], pw, wv, dt, P["sigval"][z3, w0], ub[1], ub[0], keep],
+                               [P["svtrm"][z3, j3, e3] * P["sigval"][z3, w0], P["uhill"][z3, j3, e3], None, P["svtrm"][z3, j3, e3], col(P["photsum"], N)],
+                               rtol=1e-10, atol=1e-300)
+            ctx.count(f"src_body_events_{prop}")
+    except API as ex:
+        ctx.disagree(f"{prop}.src.internal-api-differs-from-translation", {"error": f"{type(ex).__name__}: {str(ex)[:200]}"})
